@@ -41,6 +41,12 @@ def drains(F, fn):
             if not ok:
                 problems.append("returns from inside the loop when %s (result %s): elements that were not read stay in the input" % (when, S.show(r)[:60]))
             continue
+        r0 = p.result
+        if err_seen and p.ret_loop_depth == 0 and not (r0 is not None and r0[0] == "ctor" and r0[1] == S.ERR):
+            # next_*() failed and the function neither returns from the loop nor fails: the error is swallowed and the loop asks the
+            # broken container again
+            problems.append("the loop goes on after the container reported an error (when %s): the error is swallowed and termination is not evident" % when)
+            continue
         if any(t[0] == "abort" for t in p.trace):
             # try_for_each stopped at a callback error: acceptable only when the function fails with it
             r = p.result
